@@ -1,0 +1,10 @@
+//go:build verif
+
+package generic
+
+// Contracts for the deductive verifier in /verif (govc); comments only, build tag "verif".
+
+// Object invariant of Exchange, established by Adds/WithRelation (both build the builder from m.world):
+// the embedded builder works on the same world.
+//@ func Exchange.NewEntity(m, target) (e)
+//@   requires m.hasRelation ==> m.builder.world == m.world
